@@ -96,8 +96,22 @@ func monitorUCI(sc *UCIScenario, out *UCIOutcome) (vs []Violation, windows []*go
 		}
 	}
 	game := ref.NewGame(ref.MustFEN(ref.StartFEN))
-	var cur *goWindow
+	// cur is the window of the last go line written; ans the oldest window
+	// still waiting for its bestmove (a GUI may write the next position and go
+	// right behind a stop, before it has read the bestmove: the driver queues
+	// them, so answers come in the order of the go lines)
+	var cur, ans *goWindow
+	ansIdx := 0
 	owed := false
+	advance := func() {
+		for ansIdx < len(windows) && len(windows[ansIdx].bestmoves) > 0 {
+			ansIdx++
+		}
+		ans, owed = nil, false
+		if ansIdx < len(windows) {
+			ans, owed = windows[ansIdx], true
+		}
+	}
 	isready, readyok := 0, 0
 	allowUnknown := 0
 	ponderOpt := false
@@ -124,12 +138,12 @@ func monitorUCI(sc *UCIScenario, out *UCIOutcome) (vs []Violation, windows []*go
 					add("HARNESS", "bad-script", err.Error(), e.Seq)
 				}
 			case "go":
-				if owed {
-					add("HARNESS", "bad-script", "go sent while a bestmove is owed", e.Seq)
+				if owed && cur.stopReason != "stop" {
+					add("HARNESS", "bad-script", "go sent while a bestmove is owed and no stop was sent", e.Seq)
 				}
-				owed = true
 				cur = &goWindow{goLine: e.Data, goSeq: e.Seq, goT: e.T, hitT: -1, game: game.Clone(), ponderOpt: ponderOpt}
 				windows = append(windows, cur)
+				advance()
 			case "ponderhit":
 				if cur != nil && owed && cur.hitT < 0 {
 					cur.hitT = e.T
@@ -164,8 +178,15 @@ func monitorUCI(sc *UCIScenario, out *UCIOutcome) (vs []Violation, windows []*go
 			if callIdx < len(out.Calls) {
 				c := out.Calls[callIdx]
 				callIdx++
-				if cur != nil && cur.call == nil {
-					cur.call = c
+				var nw *goWindow
+				for _, w := range windows {
+					if w.call == nil {
+						nw = w
+						break
+					}
+				}
+				if nw != nil {
+					nw.call = c
 				} else {
 					add("C13", "search-without-go", "the driver started a search that no go command asked for", e.Seq)
 				}
@@ -182,14 +203,14 @@ func monitorUCI(sc *UCIScenario, out *UCIOutcome) (vs []Violation, windows []*go
 						// not a search report (e.g. `info string ...`): the statement is silent about it
 						break
 					}
-					if !owed || cur == nil {
+					if !owed || ans == nil {
 						add("C13", "info-outside-search", fmt.Sprintf("info line outside any search window (after its bestmove or before any go): %q", l), e.Seq)
 					} else {
-						cur.infos = append(cur.infos, l)
+						ans.infos = append(ans.infos, l)
 					}
-					if sc.Stub && cur != nil && cur.call != nil {
-						want := stubLines(sc, out, cur.call)
-						i := stubLineIdx[cur]
+					if sc.Stub && ans != nil && ans.call != nil {
+						want := stubLines(sc, out, ans.call)
+						i := stubLineIdx[ans]
 						if i >= len(want) || want[i] != l {
 							w := "<none>"
 							if i < len(want) {
@@ -197,19 +218,19 @@ func monitorUCI(sc *UCIScenario, out *UCIOutcome) (vs []Violation, windows []*go
 							}
 							add("C13", "torn-line", fmt.Sprintf("info line %d of the search reads %q, the search wrote %q", i, l, w), e.Seq)
 						}
-						stubLineIdx[cur] = i + 1
+						stubLineIdx[ans] = i + 1
 					}
 				case "bestmove":
-					if !owed || cur == nil {
+					if !owed || ans == nil {
 						add("C13", "unsolicited-bestmove", fmt.Sprintf("bestmove without an outstanding go: %q", l), e.Seq)
 					} else {
-						cur.bestmoves = append(cur.bestmoves, l)
-						owed = false
-						if sc.Stub && cur.call != nil {
-							if want := stubLines(sc, out, cur.call); stubLineIdx[cur] != len(want) {
-								add("C13", "lost-info", fmt.Sprintf("bestmove came after %d of the %d info lines the search wrote", stubLineIdx[cur], len(want)), e.Seq)
+						ans.bestmoves = append(ans.bestmoves, l)
+						if sc.Stub && ans.call != nil {
+							if want := stubLines(sc, out, ans.call); stubLineIdx[ans] != len(want) {
+								add("C13", "lost-info", fmt.Sprintf("bestmove came after %d of the %d info lines the search wrote", stubLineIdx[ans], len(want)), e.Seq)
 							}
 						}
+						advance()
 					}
 				case "readyok":
 					readyok++
@@ -233,10 +254,10 @@ func monitorUCI(sc *UCIScenario, out *UCIOutcome) (vs []Violation, windows []*go
 		case "QUIT-IGNORED":
 			add("C13", "no-termination-on-quit", "quit was sent and every line the engine wrote was read, but Run had not returned while the input stayed open", e.Seq)
 		case "DRAIN-GIVEUP":
-			if cur != nil && owed && cur.stopReason != "" {
+			if ans != nil && owed && ans.stopReason != "" {
 				// the GUI had told the engine to stop (or went away) and the search
 				// was still polling a few hundred thousand polls later
-				add("C13", "liveness", fmt.Sprintf("search still running %s polls after %q was sent during it (go=%q)", "400000", cur.stopReason, cur.goLine), e.Seq)
+				add("C13", "liveness", fmt.Sprintf("search still running %s polls after %q was sent during it (go=%q)", "400000", ans.stopReason, ans.goLine), e.Seq)
 				stopIgnored = true
 			} else {
 				giveup = true
